@@ -66,7 +66,7 @@ pub fn check(c: &Case, ctx: &mut Ctx) -> Result<(), Failure> {
                     }
                 } else if let Some(n) = calls_after_extreme.as_mut() {
                     *n += 1;
-                    if *n >= w + 1 {
+                    if *n >= w.saturating_add(1) {
                         travelled = true;
                     }
                 }
@@ -122,6 +122,7 @@ pub fn check(c: &Case, ctx: &mut Ctx) -> Result<(), Failure> {
                 fp.u(3);
                 ("display", guarded(|| {
                     let _ = ind.display();
+                    let _ = ind.display_variants();
                 }))
             }
             TOp::Debug => {
@@ -385,6 +386,22 @@ pub fn run(g: &mut Global) {
     );
     let cap = g.tier.pick(512usize, 4096usize);
     let maxops = g.tier.pick(1500usize, 13000usize);
+    // window-less indicators at the top of the period range (usize::MAX, MAX-1, 2^53+1, 2^32, 2^31 in every
+    // period argument that allocates nothing): valid configurations, every value schedule, with reset and clone
+    let bc: Vec<Cfg> = crate::props::c11::boundary_cfgs().into_iter().filter(|c| c.p.iter().all(|&p| p > 0)).collect();
+    let nbc = bc.len() as u64;
+    g.exhaustive(
+        "boundary_periods",
+        nbc * 8,
+        &move |i| {
+            let cfg = bc[(i / 8) as usize].clone();
+            let s = (i % 8) as usize;
+            let mut c = sweep_case_clone(cfg.kind, 3, s, 2, 4);
+            c.cfg = cfg;
+            c
+        },
+        &check,
+    );
     g.random("random", g.tier.pick(20000, 100000), &move || strategy(cap, maxops), &check);
     g.random("ties_and_roundtrips", g.tier.pick(60000, 600000), &tie_strategy, &check);
     if g.tier == Tier::Thorough {
